@@ -243,7 +243,7 @@ func replay(path string) {
 }
 
 func main() {
-	mode := flag.String("mode", "random", "random|exhaustive|replay")
+	mode := flag.String("mode", "random", "random|exhaustive|replay|conc")
 	cases := flag.Int("cases", 2000, "random cases")
 	length := flag.Int("len", 60, "ops per random case")
 	maxLen := flag.Int("maxlen", 4, "exhaustive sequence length")
@@ -265,5 +265,7 @@ func main() {
 		exhaustive(n, []int{100, 200}, []string{"tinylfu"}, []int{0, 5}, []bool{true})
 	case "replay":
 		replay(*file)
+	case "conc":
+		concurrent(*cases, *length)
 	}
 }
